@@ -50,7 +50,7 @@ PROPS = {
         trusted=["std::collections::HashMap as a finite map with unspecified iteration order"],
     ),
     "C01": dict(
-        suites=[("pool", 2500, 60000)],
+        suites=[("pool", 2500, 200000)],
         extracted=["pool.requestedInUseCmp", "pool.newInUseCmp", "pool.ownCurrentCmp", "pool.step1Order", "pool.step2Order", "pool.structFields"],
         rule=POOL_RULE,
         assumptions=POOL_ASSUME, trusted=POOL_TRUST,
@@ -67,12 +67,12 @@ PROPS = {
         rule=POOL_RULE + " || " + DHCP_RULE, assumptions=POOL_ASSUME, trusted=POOL_TRUST + DHCP_TRUST,
     ),
     "C13": dict(
-        suites=[("dhcp", 1500, 40000), ("pool", 1000, 20000)],
+        suites=[("dhcp", 1500, 100000), ("pool", 1000, 60000)],
         extracted=["dhcp.dispatchArms", "dhcp.offerHasLeaseTime"],
         rule=DHCP_RULE + " || " + POOL_RULE, assumptions=POOL_ASSUME, trusted=POOL_TRUST + DHCP_TRUST,
     ),
     "C20": dict(
-        suites=[("pool", 2000, 40000), ("leasejson", 2500, 60000)],
+        suites=[("pool", 2000, 80000), ("leasejson", 2500, 200000)],
         extracted=["pool.metricsSql", "pool.metricsReturnOrder"],
         rule=POOL_RULE + " || lease tables of 0..8 rows with client ids of 0..255 arbitrary octets and option blobs whose host-name "
              "option is drawn from quotes, backslashes, every control character, DEL, invalid UTF-8, U+2028 and random octets, "
@@ -81,7 +81,7 @@ PROPS = {
         trusted=POOL_TRUST,
     ),
     "C08": dict(
-        suites=[("acl", 4000, 100000)],
+        suites=[("acl", 4000, 600000)],
         extracted=["acl.httpArms", "acl.dnsAclFirst"],
         rule="rule lists of 0..6 rules (subnet lists over IPv4/IPv6 prefixes of every length with and without host bits, "
              "::ffff:a.b.c.d/(96+n) prefixes, unix flag, all 16 permission subsets) x clients at and around every prefix boundary "
@@ -90,7 +90,7 @@ PROPS = {
         trusted=[],
     ),
     "C16": dict(
-        suites=[("bucket", 3000, 80000), ("ratelimit", 2500, 60000)],
+        suites=[("bucket", 3000, 400000), ("ratelimit", 2500, 300000)],
         extracted=["dns.MAX_TOKENS", "dns.TOKENS_PER_SECOND", "dns.costFloor", "dns.ratelimitOnlyRefused", "dns.goodCookieExempt"],
         rule="token bucket: sequences of 1..30 check/deplete calls under a virtual Clock with costs and gaps around every boundary "
              "(0, capacity, capacity+1, refill period +-1); rate limiter: sequences of 1..40 should_ratelimit calls from one source "
@@ -103,7 +103,7 @@ PROPS = {
         trusted=["hmac/sha2 crates; DefaultHasher as an arbitrary function"],
     ),
     "C06": dict(
-        suites=[("cache", 4000, 100000)],
+        suites=[("cache", 4000, 500000)],
         extracted=[],
         rule="histories of 2..15 ops over store(key, reply with TTLs 0..2^32-1 spread over the three sections, also empty replies) x "
              "lookup(key or near-miss key differing in case / type / DO / CD) x expire x clock advance (around 1 s, the smallest "
@@ -114,7 +114,7 @@ PROPS = {
         trusted=["HashMap<CacheKey,_> as a finite map"],
     ),
     "C15": dict(
-        suites=[("route", 2500, 40000)],
+        suites=[("route", 2500, 300000)],
         extracted=[],
         rule="route tables of 1..6 routes x 0..4 suffixes (nested and sibling suffixes, the empty suffix, mixed case, forge-nxdomain / "
              "forward with a distinct 127.0.0.N upstream per route / forward without a server), each table also in random "
@@ -190,7 +190,7 @@ PROPS = {
                  "the census of raw operations in tools/census.json is the tie between the model's panic sites and the decoder sources"],
     ),
     "C19": dict(
-        suites=[("cfgload", 1500, 30000), ("cfgfield", 3000, 60000), ("dhcpcfg", 500, 5000), ("ra", 500, 5000)],
+        suites=[("cfgload", 1500, 60000), ("cfgfield", 3000, 240000), ("dhcpcfg", 500, 20000), ("ra", 500, 40000)],
         extracted=["cfg.typeNameChecked", "cfg.durationChecked", "cfg.hexdigitArms", "cfg.sectionsChecked", "cfg.prefixLenChecked",
                    "dhcp.defaultPoolMinLen", "dhcp.applySubnetMinLen", "pkt.subnetPrefixLenMax",
                    "census.config", "census.dhcpconfig", "census.radvconfig", "census.dnsconfig", "census.acl"],
@@ -234,12 +234,12 @@ PROPS = {
         trusted=["the scripted upstream and the clients of the rig (harness/src/e2e.rs)"],
     ),
     "C17": dict(
-        suites=[("ra", 2500, 60000)],
-        extracted=[],
+        suites=[("ra", 2500, 300000)],
+        extracted=["ra.rdnssChunk", "ra.dnsslLengthChecked", "ra.captiveLengthChecked"],
         rule="router-advertisements YAML generated from the grammar (every interface field present/absent/null; lifetimes and timers at "
-             "and across every field boundary 0..2^33 s; 0..16 prefixes of every length with and without host bits; 0..8 DNS servers "
+             "and across every field boundary 0..2^33 s; 0..16 prefixes of every length with and without host bits; 0..8 and 126..300 DNS servers "
              "incl. $self6; search domains with labels up to 64 octets; NAT64 prefixes of valid and invalid lengths with lifetimes "
-             "around 65528 s; URLs 0..240 octets; top-level defaults) loaded by the real loader, built by the private builder (hook), "
+             "around 65528 s; URLs 0..240 and 2029..4117 octets and one with a NUL; 30..70 long search domains; top-level defaults) loaded by the real loader, built by the private builder (hook), "
              "serialised by icmppkt::serialise; the wire is compared with the model and decoded by a decoder written from RFC 4861/"
              "8106/8781/8910 against the documented values (options compared as a multiset); non-trivial = carries at least one option",
         assumptions=["the interface MTU / default-route decision made from netinfo in build_announcement is supplied by the harness"],
